@@ -15,8 +15,40 @@ from .ref import hd
 N = hd.N
 
 
+_ORIG_NEW, _ORIG_DIGEST = _hmac.new, _hmac.digest
+
+
 def real_prf(key, msg):
-    return _hmac.new(key, msg, hashlib.sha512).digest()
+    return _ORIG_NEW(key, msg, hashlib.sha512).digest()
+
+
+def _is_sha512(d):
+    if d is None:
+        return False
+    if isinstance(d, str):
+        return d.lower().replace("-", "") == "sha512"
+    return d is hashlib.sha512 or getattr(d, "__name__", "") in ("sha512", "openssl_sha512")
+
+
+class _FakeHMAC:
+    """what hmac.new(key, msg, sha512) returns while a PRF substitute is installed (covers a package that calls the
+    standard library directly instead of through its own helper)"""
+    digest_size, block_size, name = 64, 128, "hmac-sha512"
+
+    def __init__(self, prf, key, msg):
+        self._prf, self._key, self._msg = prf, bytes(key), bytes(msg or b"")
+
+    def update(self, more):
+        self._msg += bytes(more)
+
+    def copy(self):
+        return _FakeHMAC(self._prf, self._key, self._msg)
+
+    def digest(self):
+        return self._prf.impl_side(self._key, self._msg)
+
+    def hexdigest(self):
+        return self.digest().hex()
 
 
 class PRF:
@@ -56,19 +88,30 @@ def installed(prf):
     import btc_hd_wallet.bip32 as B32
     import btc_hd_wallet.bip85 as B85
     mods = [m for m in (H, B32, B85) if hasattr(m, "hmac_sha512")]
-    if len(mods) < 2:
-        raise HarnessError("seam lost: hmac_sha512 is no longer a module attribute of bip32/bip85/helper")
     saved = [(m, m.hmac_sha512) for m in mods]
 
     def stub(key, msg):
         return prf.impl_side(key, msg)
     for m in mods:
         m.hmac_sha512 = stub
+
+    # second line: the standard-library entry points themselves (the harness and the reference use the saved originals)
+    def new(key, msg=None, digestmod=None):
+        if _is_sha512(digestmod):
+            return _FakeHMAC(prf, key, msg)
+        return _ORIG_NEW(key, msg, digestmod)
+
+    def digest(key, msg, digest):
+        if _is_sha512(digest):
+            return prf.impl_side(bytes(key), bytes(msg))
+        return _ORIG_DIGEST(key, msg, digest)
+    _hmac.new, _hmac.digest = new, digest
     old = hd.PRF_HOOK[0]
     hd.PRF_HOOK[0] = prf
     try:
         yield prf
     finally:
+        _hmac.new, _hmac.digest = _ORIG_NEW, _ORIG_DIGEST
         for m, f in saved:
             m.hmac_sha512 = f
         hd.PRF_HOOK[0] = old
